@@ -2676,6 +2676,20 @@ func (a *Association) getOrCreateStream(
 	return s
 }
 
+// getOrCreateSkippedStream returns the stream a FORWARD-TSN / I-FORWARD-TSN entry
+// refers to. The abandoned message may have been the first one on its stream and
+// lost entirely, in which case the stream does not exist yet: it is created (and
+// offered to AcceptStream, as the first DATA chunk would have done) so that the
+// skipped sequence number is not forgotten and later messages are not blocked.
+// The caller should hold the lock.
+func (a *Association) getOrCreateSkippedStream(streamIdentifier uint16) *Stream {
+	if s, ok := a.streams[streamIdentifier]; ok {
+		return s
+	}
+
+	return a.createStream(streamIdentifier, true)
+}
+
 // The caller should hold the lock.
 //
 //nolint:gocognit,cyclop
@@ -3564,7 +3578,7 @@ func (a *Association) handleForwardTSN(chunkTSN *chunkForwardTSN) []*packet {
 	// corresponding streams so that the abandoned chunks can be removed
 	// from the reassemblyQueue.
 	for _, forwarded := range chunkTSN.streams {
-		if s, ok := a.streams[forwarded.identifier]; ok {
+		if s := a.getOrCreateSkippedStream(forwarded.identifier); s != nil {
 			s.handleForwardTSNForOrdered(forwarded.sequence)
 		}
 	}
@@ -3605,7 +3619,7 @@ func (a *Association) handleIForwardTSN(chunkTSN *chunkIForwardTSN) []*packet {
 	a.payloadQueue.advanceCumulativeTSN(chunkTSN.newCumulativeTSN)
 
 	for _, forwarded := range chunkTSN.streams {
-		if s, ok := a.streams[forwarded.identifier]; ok {
+		if s := a.getOrCreateSkippedStream(forwarded.identifier); s != nil {
 			if forwarded.unordered {
 				s.handleForwardTSNForUnorderedMID(forwarded.messageIdentifier)
 			} else {
